@@ -135,17 +135,19 @@ def case_sweep(cid, directed, assort, K, recs, L, wt, N, u, v, w, it0=0, co0=0, 
 
 
 def case_run(cid, directed, assort, init, K, lt, recs, L, wt, r, maxit, nconv, seed, prior=0.0, tr=0,
-             script=(), aff=None, vshape=0, lprior=0, ushape=0):
+             script=(), aff=None, vshape=0, lprior=0, ushape=0, draws=()):
     if aff is None:
         aff = [0.0] * ((K if assort else K * K) * L)
     t = [cid, "run", str(int(directed)), str(int(assort)), init, str(K), lt] + recs_tokens(recs, L, wt)
     t += [str(r), str(maxit), str(nconv), str(seed), hexf(prior), str(tr)] + flist(list(script)) + flist(aff)
-    if vshape or lprior or ushape:
+    if vshape or lprior or ushape or draws:
         t.append(str(vshape))   # prior shape of the in-membership container (see harness op_run_t)
-    if lprior or ushape:
+    if lprior or ushape or draws:
         t.append(str(lprior))   # prior contents of the label container
-    if ushape:
+    if ushape or draws:
         t.append(str(ushape))   # shape of the out-membership container (always N*K elements)
+    if draws:
+        t += flist(list(draws))  # the generator returns these draws (cyclically) instead of the stream of the seed
     return " ".join(t)
 
 
